@@ -6,6 +6,9 @@ import json, sys
 style = "maint"
 if "--style" in sys.argv:
     i = sys.argv.index("--style"); style = sys.argv[i+1]; del sys.argv[i:i+2]
+focus = ""
+if "--focus" in sys.argv:
+    i = sys.argv.index("--focus"); focus = sys.argv[i+1]; del sys.argv[i:i+2]
 name = sys.argv[1]
 pids = sys.argv[2:]
 props = [json.loads(l) for l in open('/verif/properties.jsonl')]
@@ -67,7 +70,7 @@ analysis of the source. We need to know whether it raises alarms on code where t
 
 YOUR TASK: produce EIGHT different, independent, realistic BEHAVIOUR-PRESERVING changes to the library's non-test source under {wt}/src, each touching
 code at or near the anchors above (the mechanisms the properties rest on), such as a maintainer would make in ordinary maintenance:
-{KINDS_ADD if style=='additive' else KINDS_CONTRACT if style=='contract' else KINDS_MAINT}Each change must be SEMANTICALLY NEUTRAL with respect to every property above under EVERY interleaving, input and history (do not weaken orderings,
+{KINDS_ADD if style=='additive' else KINDS_CONTRACT if style=='contract' else (KINDS_MAINT + KINDS_CONTRACT) if style=='mixed' else KINDS_MAINT}{('FOCUS: at least SIX of the eight changes must edit the bodies of these functions (one or two functions per change, different ones across the changes): ' + focus + chr(10)) if focus else ''}Each change must be SEMANTICALLY NEUTRAL with respect to every property above under EVERY interleaving, input and history (do not weaken orderings,
 do not move a read/write across a synchronisation point, do not change which value a guard compares, do not change when wakes / releases / publications
 happen relative to each other except by adding strictly more wakes). If in doubt whether an edit is neutral, pick another one. Aim for variety across
 the eight (different files, different kinds of refactor); at least half should touch the *core* mechanism functions named in the anchors, not only
